@@ -66,3 +66,50 @@ def fresh_inodes(ctx):
     if n < 5:
         raise AnalysisError('anchor-vanished: appends to PyCdlib.inodes (%d)' % n)
     return obs
+
+
+@rule('SA-FRESH.derived_pair')
+@props('C12')
+def derived_pair(ctx):
+    """Two quantities handed to the caller together - `return (cc, padding)` - where one is computed arithmetically
+    from the other: the computation uses the final value of the other.  If the other is assigned again on some path
+    between the computation and the return (the padding grows by whole cylinders until the backup GPT fits), the pair
+    that is returned is inconsistent - the cylinder count of the MBR describes an image shorter than the one that is
+    padded and written.  Plain copies (`start = cur` before `cur` advances) are not derivations and are not judged."""
+    obs = []
+    n = 0
+    for fi in ctx.m.pkg_functions():
+        for r in ctx.own_nodes(fi):
+            if not (isinstance(r, ast.Return) and isinstance(r.value, ast.Tuple) and all(isinstance(e, ast.Name) for e in r.value.elts)):
+                continue
+            g, RD = ex._rd(ctx, fi)
+            rn = g.node_of(r)
+            if rn is None:
+                continue
+            reach = RD.get(rn.id) or ()
+            names = [e.id for e in r.value.elts]
+            for a in names:
+                for d in sorted(set(dd for nm, dd in reach if nm == a)):
+                    st = g.nodes[d].stmt
+                    if not isinstance(st, ast.Assign):
+                        continue
+                    arith = set()
+                    for x in ast.walk(st.value):
+                        if isinstance(x, ast.BinOp):
+                            for y in ast.walk(x):
+                                if isinstance(y, ast.Name):
+                                    arith.add(y.id)
+                    for b in names:
+                        if b == a or b not in arith:
+                            continue
+                        n += 1
+                        at_ret = set(dd for nm, dd in reach if nm == b)
+                        at_def = set(dd for nm, dd in (RD.get(d) or ()) if nm == b)
+                        ok = at_ret == at_def
+                        later = sorted(g.nodes[x].stmt.lineno for x in at_ret - at_def if g.nodes[x].stmt is not None)
+                        obs.append(Ob('SA-FRESH.derived_pair', '%s|%s computed from %s' % (fi.qual, a, b), ok, ctx.loc(fi, st),
+                                      '' if ok else '`%s` is computed from `%s` at line %d, but `%s` is assigned again at line %s before both are returned together '
+                                      '(line %d): the caller receives a %s that does not belong to the %s it receives'
+                                      % (a, b, st.lineno, b, ', '.join(map(str, later)), r.lineno, a, b)))
+    obs.append(Ob('SA-FRESH.derived_pair', 'returned pairs with an arithmetic derivation examined', True, '', '%d' % n))
+    return obs
